@@ -31,6 +31,7 @@ import (
 
 	"verifharness/core"
 	"verifharness/progs"
+	"verifharness/props/c04"
 	"verifharness/sysrun"
 	"verifharness/sysx"
 )
@@ -53,12 +54,13 @@ type Fault struct {
 }
 
 type Case struct {
-	Kind   string  `json:"kind"` // transient | deterministic
-	Prog   string  `json:"prog"`
-	Prod   bool    `json:"prod"`
-	Faults []Fault `json:"faults,omitempty"`
-	FailIn string  `json:"fail_in,omitempty"` // module failing deterministically
-	FailAt uint64  `json:"fail_at,omitempty"`
+	Kind   string    `json:"kind"` // transient | deterministic | source-end
+	Prog   string    `json:"prog"`
+	Prod   bool      `json:"prod"`
+	Faults []Fault   `json:"faults,omitempty"`
+	FailIn string    `json:"fail_in,omitempty"` // module failing deterministically
+	FailAt uint64    `json:"fail_at,omitempty"`
+	Src    *c04.Case `json:"source_end,omitempty"` // kind "source-end"
 }
 
 const (
@@ -321,6 +323,14 @@ func Eval(c Case) (*core.Fail, bool) {
 			return core.Failf("stream-differs-after-transient-faults", "%s: %s", desc, d), plan.hit > 0
 		}
 		return nil, plan.hit > 0
+	case "source-end":
+		// the worker's own block source ends cleanly before the job's last block (C04's deviation, judged here for the
+		// jobs): the request fails or is served completely, and the cache stays usable
+		f, nt := c04.Eval(*c.Src)
+		if f != nil {
+			f.Key = "worker-source-ended-early:" + f.Key
+		}
+		return f, nt
 	case "deterministic":
 		p := progs.WithFailAt(program(c.Prog), c.FailIn, c.FailAt)
 		b := faultFree(c.Prog, c.Prod)
@@ -444,6 +454,21 @@ func Run(ctx *core.Ctx) int {
 				}
 			}
 		}
+		// the worker's block source shuts down cleanly after every block of the backfilled range, three requests
+		for _, b := range []c04.Case{
+			{Prog: "storemap", Prod: true, Seg: 3, SInit: 1, MInit: 2, Start: 4, Stop: 14, Final: 9},
+			{Prog: "storemap", Prod: false, Seg: 3, SInit: 1, MInit: 2, Start: 7, Stop: 12, Final: 6},
+			{Prog: "maponly", Prod: true, Seg: 2, SInit: 1, MInit: 1, Start: 3, Stop: 9, Final: 6},
+			{Prog: "sparse", Prod: true, Seg: 2, SInit: 1, MInit: 1, Start: 2, Stop: 9, Final: 7},
+		} {
+			for n := uint64(1); n < b.Stop; n++ {
+				v := b
+				v.CleanEndAt, v.CleanEndTier2 = n, true
+				if !emit(Case{Kind: "source-end", Prog: b.Prog, Prod: b.Prod, Src: &v}) {
+					return
+				}
+			}
+		}
 	}, Eval)
 	ctx.Sample(Case{Kind: "transient", Prog: "storemap", Prod: true, Faults: []Fault{{0, 1, MID}, {0, 2, POST}}})
 	ctx.Sample(Case{Kind: "deterministic", Prog: "storemap", Prod: true, FailIn: "s", FailAt: 7})
@@ -456,7 +481,7 @@ func Run(ctx *core.Ctx) int {
 		jobsInfo[k] = fmt.Sprintf("%d jobs %v", len(b.units), b.units)
 	}
 	ctx.Cov["jobs_of_the_fault_free_runs"] = jobsInfo
-	ctx.Cov["rule"] = fmt.Sprintf("request [%d,%d), segment %d, final block %d, both modes, on %v: every multiset of <= %d transient faults over the (job, attempt) sites of the request x kinds {call refused, service overloaded, stream dropped mid-way with the server side cancelled (seen by the client as Unavailable, or - as first or second fault - as the worker's own Canceled status; or the worker cancelled right after the job's last block, between the flush of the cached outputs and the flush of the store partial; or cancelled while a module's host call is in flight), stream dropped after the job wrote all its files}; and a deterministic module failure at every block 1..%d in every store and in the output map. The jobs are executed by the real work.RemoteWorker (retry loop, error classification) talking to a fake in-process transport whose server side is the real Tier2Service.processRange with the real tier2 error mapping. Oracle: transient -> the request completes with the fault-free stream; deterministic -> the error maps to invalid-argument through the real tier1 mapping, every delivered block is below the failing block, the delivered sequence is a prefix of the fault-free one, nothing after the error. Non-trivial: at least one injected fault site was reached.", start, stop, seg, final, progsList, maxFaults, stop-1)
+	ctx.Cov["rule"] = fmt.Sprintf("request [%d,%d), segment %d, final block %d, both modes, on %v: every multiset of <= %d transient faults over the (job, attempt) sites of the request x kinds {call refused, service overloaded, stream dropped mid-way with the server side cancelled (seen by the client as Unavailable, or - as first or second fault - as the worker's own Canceled status; or the worker cancelled right after the job's last block, between the flush of the cached outputs and the flush of the store partial; or cancelled while a module's host call is in flight), stream dropped after the job wrote all its files}; the worker's own block source shutting down cleanly after every block of four requests (the request fails or is complete, and the same request afterwards on the same cache delivers the fault-free stream); and a deterministic module failure at every block 1..%d in every store and in the output map. The jobs are executed by the real work.RemoteWorker (retry loop, error classification) talking to a fake in-process transport whose server side is the real Tier2Service.processRange with the real tier2 error mapping. Oracle: transient -> the request completes with the fault-free stream; deterministic -> the error maps to invalid-argument through the real tier1 mapping, every delivered block is below the failing block, the delivered sequence is a prefix of the fault-free one, nothing after the error. Non-trivial: at least one injected fault site was reached.", start, stop, seg, final, progsList, maxFaults, stop-1)
 	ctx.Assume = []string{
 		"the gRPC transport is replaced by an in-process stream (status errors are constructed as grpc-go would deliver them); bufconn was not needed",
 		"DeadlineExceeded is not in the transient alphabet: the worker gives up after three by design",
